@@ -695,6 +695,91 @@ var longSetProp = vp.Register(vp.Prop[SetCase]{
 	Check: checkSet,
 })
 
+// LargeCase grows a set far beyond the sizes of the generated histories
+// (thresholds on how many elements a set has held), empties it in one of
+// several ways and goes on using it.
+type LargeCase struct {
+	Impl  string `json:"impl"`  // mapset-int | sorted-int
+	N     int    `json:"n"`     // distinct values added first
+	Empty int    `json:"empty"` // 0 Clear, 1 Delete every value, 2 Clear a clone's origin and use the clone, 3 Clear twice
+	After []int  `json:"after"` // values added afterwards
+}
+
+func checkLarge(c LargeCase) error {
+	var set setAPI[int]
+	var clone func() setAPI[int]
+	if c.Impl == "sorted-int" {
+		s := container.NewSortedSliceSet[int]()
+		set, clone = s, func() setAPI[int] { return s.Clone() }
+	} else {
+		s := container.NewMapSet[int]()
+		set, clone = s, func() setAPI[int] { return s.Clone() }
+	}
+	for i := 0; i < c.N; i++ {
+		set.Add(i * 3)
+	}
+	if set.Len() != c.N || (c.N > 0 && (!set.Has(0) || !set.Has((c.N-1)*3) || set.Has(1))) {
+		return fmt.Errorf("%s after adding %d distinct values: Len() = %d, Has(first/last/absent) = %v/%v/%v", c.Impl, c.N, set.Len(), set.Has(0), set.Has((c.N-1)*3), set.Has(1))
+	}
+	switch c.Empty {
+	case 1:
+		for i := c.N - 1; i >= 0; i-- {
+			set.Delete(i * 3)
+		}
+	case 2:
+		cl := clone()
+		set.Clear()
+		if cl.Len() != c.N {
+			return fmt.Errorf("%s: clearing the origin changed its clone: Len() = %d, want %d", c.Impl, cl.Len(), c.N)
+		}
+		cl.Clear()
+		set = cl
+	case 3:
+		set.Clear()
+		set.Clear()
+	default:
+		set.Clear()
+	}
+	if set.Len() != 0 || set.Has(0) || len(set.Values()) != 0 {
+		return fmt.Errorf("%s emptied (mode %d) after holding %d values: Len() = %d, Has(0) = %v, %d Values", c.Impl, c.Empty, c.N, set.Len(), set.Has(0), len(set.Values()))
+	}
+	model := map[int]bool{}
+	for _, v := range c.After {
+		set.Add(v)
+		model[v] = true
+	}
+	if set.Len() != len(model) {
+		return fmt.Errorf("%s emptied (mode %d) after holding %d values, then %d Adds: Len() = %d, want %d", c.Impl, c.Empty, c.N, len(c.After), set.Len(), len(model))
+	}
+	for v := range model {
+		if !set.Has(v) {
+			return fmt.Errorf("%s emptied after holding %d values: Has(%d) is false after Add", c.Impl, c.N, v)
+		}
+	}
+	vp.Class("large")
+	if c.N >= 1<<14 {
+		vp.Class("large:>=16384-values-then-emptied-then-used")
+		vp.NonTrivialStr("c11.set-large", fmt.Sprintf("%+v", c))
+		vp.Sample("large", c)
+	}
+	return nil
+}
+
+var largeProp = vp.Register(vp.Prop[LargeCase]{
+	Kind: "c11.set-large", Base: 60,
+	Gen: func(t *rapid.T) LargeCase {
+		return LargeCase{
+			Impl:  rapid.SampledFrom([]string{"mapset-int", "sorted-int"}).Draw(t, "impl"),
+			N:     rapid.SampledFrom([]int{0, 1, 255, 256, 257, 1023, 1025, 4097, 16383, 16384, 16385, 32769, 65537, 100000}).Draw(t, "n"),
+			Empty: rapid.IntRange(0, 3).Draw(t, "empty"),
+			After: rapid.SliceOfN(rapid.IntRange(-5, 50), 1, 8).Draw(t, "after"),
+		}
+	},
+	Check: checkLarge,
+})
+
+func TestSetLarge(t *testing.T) { vp.Run(t, largeProp) }
+
 // checkReaders: a container that is only read may be read from several
 // goroutines at once (Has, Len, Values, Range, Equal, String / Range,
 // ReverseRange, Current, Len are observers; an observer that writes hidden
